@@ -116,17 +116,12 @@ class pile_contents_modified:
 
 PROTOCOLS["SizeArg"] = type("SA", (Protocol,), {"kind": "SizeArg", "methods": {}})()
 
-
-@contract(PI + "Pile.get_rows_sizes", property=(), assumed=True, deterministic=True,
-          notes="(widths, heights, size arguments), one per child (C19/C01 own the values); here only the lengths matter")
-class pile_grs:
-    self_shape = PILE
-    params = dict(size=Opaque("SizeArg"), focus=Bool)
-    result = Tup(ListOf(Dim, tuple_=True), ListOf(Dim, tuple_=True), ListOf(Opaque("SizeArg"), tuple_=True))
-
-    def ensures(old, s, a, result):
-        n = n_items(old)
-        yield "one-entry-per-child", both(Q.seq_len(result[0]) == n, Q.seq_len(result[1]) == n, Q.seq_len(result[2]) == n)
+# sizes: the Pile itself is a box or a flow widget here (the fixed `()` case runs through _get_fixed_rows_sizes and is
+# left to the bounded part); a child is handed (), (c,) or (c, r) -- a value of unknown arity, case-split where used
+PSIZE = Union(Tup(Int, Int), Tup(Int))
+CSIZE = Union(Tup(), Tup(Int), Tup(Int, Int))
+GRS_RESULT = Tup(ListOf(Int, tuple_=True), ListOf(Nat, tuple_=True), ListOf(CSIZE, tuple_=True))  # heights >= 0: clause no-negative-height
+# `Pile.get_rows_sizes` is under a verified contract in contracts/C09_pile.py (the shared geometry of C09/C01)
 
 
 UPDOWN = ("cursor up", "cursor down")
